@@ -10,7 +10,7 @@ SPEC = {
               quick_n=1200, thorough_n=12000,
               rule="95% sessions of 1..4 requests on a fresh storage directory through the REAL handler built by "
                    "telemetrygodev's newHandler (mux + Log, Timeout, RequestSize, Recover + handleUpload + validate; file "
-                   "system buckets), called via httptest (60% with an honest Content-Length; 36% with http.Request.ContentLength set by hand: -1, 0, one less / one more / 1000 more than the body, the limit, limit+1, 10x limit, 2^26, 2^50, 2^55, 2^62, max int64; 4% from a raw TCP client over a real listener: honest length, chunked coding in 1..3 chunks, an absurd declared length with limit+1 bytes sent): 85% POST, 15% GET/PUT/DELETE/HEAD/PATCH/OPTIONS/'post'; bodies: "
+                   "system buckets), called via httptest (60% with an honest Content-Length; 36% with http.Request.ContentLength set by hand: -1, 0, one less / one more / 1000 more than the body, the limit, limit+1, 10x limit, 2^26, 2^50, 2^55, 2^62, max int64; 3% with a body reader that fails with a transport error after k bytes; 6% from a raw TCP client over a real listener: honest length, chunked coding in 1..3 chunks, an absurd declared length with limit+1 bytes sent, ILL-FRAMED chunked messages (non-hex / negative / empty / over-wide chunk size, data not followed by CRLF, bare LF, malformed trailer, control bytes) with the connection kept open): 85% POST, 15% GET/PUT/DELETE/HEAD/PATCH/OPTIONS/'post'; bodies: "
                    "23% valid reports (0..3 approved programs, counters, stacks with frames, X over denormal..1.8e308 and "
                    "negative), 7% kind confusion (one added item of an otherwise valid report: a stack name used as counter, a counter "
                    "used as stack, a counter/stack of the other program, an expansion prefix without bucket, a bucket of another "
